@@ -118,7 +118,12 @@ NONTRIVIAL = {
             "with overflow checks enabled"),
 }
 
+def shards_results(tier):
+    return shards_general(tier) + [("results", 100000)]
+
+
 SHARDS = {
+    "C04": shards_results,
     "C05": shards_repetition, "C06": shards_repetition, "C07": shards_repetition,
     "C09": shards_setup,
 }
